@@ -406,11 +406,77 @@ def _own_expr_fields(st: ast.stmt) -> list[str]:
     return []
 
 
+class _SetattrUnroller(ast.NodeTransformer):
+    """for NAME in ("a", "b"): setattr(obj, NAME, V)   ->   obj.a = V; obj.b = V
+    (the tuple may be a literal or a module-level constant of string literals; V must not mention NAME)."""
+
+    def __init__(self, repo: Repo, fi: FuncInfo) -> None:
+        self.repo = repo
+        self.fi = fi
+        self.count = 0
+
+    def visit_FunctionDef(self, node):
+        if node is self.fi.node:
+            self.generic_visit(node)
+        return node
+
+    visit_AsyncFunctionDef = visit_FunctionDef
+
+    def visit_Lambda(self, node):
+        return node
+
+    def _strings(self, it: ast.AST) -> list[str] | None:
+        if isinstance(it, ast.Name):
+            from .loader import ConstInfo
+
+            r = self.repo.lookup(it.id, self.fi.module, self.fi)
+            stored = any(isinstance(n, ast.Name) and n.id == it.id and isinstance(n.ctx, ast.Store) for n in ast.walk(self.fi.node))
+            if isinstance(r, ConstInfo) and len(r.assigns) == 1 and not stored:
+                it = getattr(r.assigns[0], "value", None)
+        if isinstance(it, (ast.Tuple, ast.List)) and it.elts and all(isinstance(e, ast.Constant) and isinstance(e.value, str) and e.value.isidentifier() for e in it.elts):
+            return [e.value for e in it.elts]  # type: ignore[attr-defined]
+        return None
+
+    def visit_For(self, node: ast.For):
+        self.generic_visit(node)
+        if node.orelse or not isinstance(node.target, ast.Name) or len(node.body) != 1:
+            return node
+        st = node.body[0]
+        names = self._strings(node.iter)
+        if names is None or not (isinstance(st, ast.Expr) and isinstance(st.value, ast.Call) and isinstance(st.value.func, ast.Name)
+                                 and st.value.func.id == "setattr" and len(st.value.args) == 3 and not st.value.keywords):
+            return node
+        obj, key, val = st.value.args
+        var = node.target.id
+        if not (isinstance(key, ast.Name) and key.id == var) or any(isinstance(n, ast.Name) and n.id == var for n in ast.walk(val)) \
+                or any(isinstance(n, ast.Name) and n.id == var for n in ast.walk(obj)) or any(isinstance(n, ast.Call) for n in ast.walk(val)):
+            return node
+        out = []
+        for nm in names:
+            tgt = ast.Attribute(value=clone(obj), attr=nm, ctx=ast.Store())
+            out.append(ast.copy_location(ast.Assign(targets=[tgt], value=clone(val)), st))
+        self.count += 1
+        return out
+
+
 def build_inlined_repo(root=None, keep: set[str] | None = None) -> tuple[Repo, dict[str, int]]:
     """A second Repo whose functions have their private helpers inlined (ASTs mutated in place on a private parse,
     original line numbers kept on every statement)."""
     work = Repo(root)
     prog = Program(work)
+    # equivalence-preserving normalisations first
+    unrolled = 0
+    for fi in list(work.functions.values()):
+        if isinstance(fi.node, ast.Lambda):
+            continue
+        u = _SetattrUnroller(work, fi)
+        u.visit(fi.node)
+        unrolled += u.count
+    if unrolled:
+        for mod in work.modules.values():
+            ast.fix_missing_locations(mod.tree)
+        work = Repo(root, trees={name: (m.path, m.source, m.tree) for name, m in work.modules.items()})
+        prog = Program(work)
     inl = Inliner(work, prog, keep)
     changed = 0
     # innermost functions first: a caller then splices the already-inlined body of its helper
@@ -423,4 +489,5 @@ def build_inlined_repo(root=None, keep: set[str] | None = None) -> tuple[Repo, d
         ast.fix_missing_locations(mod.tree)
     view = Repo(root, trees={name: (m.path, m.source, m.tree) for name, m in work.modules.items()})
     inl.stats["functions_changed"] = changed
+    inl.stats["setattr_loops_unrolled"] = unrolled
     return view, inl.stats
